@@ -42,9 +42,13 @@ pub fn vx_then<T, F: FnOnce() -> T>(b: bool, f: F) -> (r: Option<T>)
 #[verifier::external_body]
 pub fn vx_attr_and_then_map<T, U, A: FnOnce(&str) -> Option<T>, B: FnOnce(T) -> U>(a: &ImportAttributes, k: &str, f: A, g: B) -> (r: Option<U>)
 { a.get(k).and_then(f).map(g) }
-/// `attrs.get(key).map(g)` (R7 chain wrapper; nothing is claimed about the result)
+/// whether the attribute list `a` names a value for the key `k` (`ImportAttributes::get(k)` is `Some`)
+pub uninterp spec fn attr_has(a: ImportAttributes, k: Seq<char>) -> bool;
+/// `attrs.get(key).map(g)` (R7 chain wrapper; ASSUMED: a value comes back exactly when the list names the key;
+/// nothing is claimed about the value itself)
 #[verifier::external_body]
 pub fn vx_attr_map<U, B: FnOnce(&str) -> U>(a: &ImportAttributes, k: &str, g: B) -> (r: Option<U>)
+    ensures (r is Some) == attr_has(*a, k@),
 { a.get(k).map(g) }
 /// `specifiers.into_iter().map(f).collect::<Vec<_>>()` (R7 chain wrapper): the images in order
 #[verifier::external_body]
